@@ -21,37 +21,6 @@ Proof.
 Qed.
 
 
-(* ---- the memo key ---------------------------------------------------------------- *)
-Fixpoint no_at (s : string) : bool :=
-  match s with EmptyString => true | String c r => negb (Ascii.eqb c "@"%char) && no_at r end.
-
-Lemma no_at_app_at x y : no_at (x ++ String "@"%char y)%string = false.
-Proof. induction x as [|c x IH]; simpl; [reflexivity|]. rewrite IH. apply andb_false_r. Qed.
-
-Lemma no_at_strip s : no_at (strip_q1 s) = true -> no_at s = true.
-Proof.
-  unfold strip_q1. destruct s as [|a [|b r]]; try (intro H; exact H).
-  unfold is_q1. destruct (Ascii.eqb a "Q") eqn:Ea; [|intro H; exact H].
-  destruct (Ascii.eqb b "1") eqn:Eb; [|intro H; exact H].
-  apply Ascii.eqb_eq in Ea, Eb. subst. simpl. intro H; exact H.
-Qed.
-
-(* URL ++ "@" ++ checksum determines the checksum when neither checksum contains '@' *)
-Lemma key_chk : forall u1 u2 c1 c2,
-  (u1 ++ String "@"%char c1)%string = (u2 ++ String "@"%char c2)%string -> no_at c1 = true -> no_at c2 = true -> c1 = c2.
-Proof.
-  induction u1 as [|a u1 IH]; intros u2 c1 c2 E N1 N2.
-  - destruct u2 as [|b u2]; simpl in E.
-    + inversion E; reflexivity.
-    + inversion E; subst. rewrite no_at_app_at in N1. discriminate.
-  - destruct u2 as [|b u2]; simpl in E.
-    + inversion E; subst. rewrite no_at_app_at in N2. discriminate.
-    + inversion E; subst. eapply IH; eauto.
-Qed.
-
-Lemma memo_key_chk h0 h : memo_key h0 = memo_key h -> no_at (h_chk h) = true -> no_at (h_chk h0) = true -> h_chk h0 = h_chk h.
-Proof. unfold memo_key. simpl. intros E N N0. eapply key_chk; eauto. Qed.
-
 Section WithOracles.
   Variable sha1 : list N -> list N.
   Variable sha256 : list N -> list N.
@@ -250,39 +219,36 @@ Section WithOracles.
   Lemma chain_same_sum h h' x : h_sum h = h_sum h' -> Chain h x -> Chain h' x.
   Proof. unfold PkgAuthSpec.Chain. intros E (A & B & C). rewrite <- E. auto. Qed.
 
-  (* the process memo: every stored success satisfies the chain for a request
-     with that key *)
+  (* the process memo: every stored success satisfies the chain for the request
+     (URL, checksum string) it is stored under *)
   Definition memo_inv (m : memo) : Prop :=
-    forall key r x, assoc_s key m = Some r -> r = XOk x ->
+    forall key r x, assoc_k key m = Some r -> r = XOk x ->
       exists h0, memo_key h0 = key /\ Chain h0 x.
 
-  (* base64 text never contains '@' *)
-  Definition b64_alphabet : Prop := forall s, b64 s <> None -> no_at s = true.
-
-  Lemma chain_no_at h x : b64_alphabet -> Chain h x -> no_at (h_chk h) = true.
+  Lemma key_eqb_eq a b : key_eqb a b = true <-> a = b.
   Proof.
-    intros AB (A & _). apply no_at_strip. apply AB. unfold PkgAuth.h_sum in A. rewrite A. discriminate.
+    unfold key_eqb. destruct a as [a1 a2], b as [b1 b2]; simpl.
+    rewrite andb_true_iff, !String.eqb_eq. split; [intros [-> ->]; reflexivity | intro H; inversion H; auto].
   Qed.
 
   Lemma expand_package_chain m k h served r k' m' :
-    b64_alphabet -> no_at (h_chk h) = true ->
     memo_inv m -> opt_cache_ok k -> opt_dst_same k served ->
     expand_package sha1 sha256 b64 m k h served = (r, k', m') ->
     (forall x, r = XOk x -> Chain h x) /\ opt_cache_ok k' /\ memo_inv m'.
   Proof.
-    intros AB NA MI Ok Same. unfold expand_package. destruct k as [kc|].
-    - destruct (assoc_s (memo_key h) m) as [r0|] eqn:A.
+    intros MI Ok Same. unfold expand_package. destruct k as [kc|].
+    - destruct (assoc_k (memo_key h) m) as [r0|] eqn:A.
       + intro H. inversion H; subst. split; [|split; assumption].
         intros x E. destruct (MI _ _ x A E) as (h0 & K0 & C0).
-        eapply chain_same_sum; [|exact C0]. unfold PkgAuth.h_sum. f_equal. f_equal.
-        eapply memo_key_chk; eauto. eapply chain_no_at; eauto.
+        eapply chain_same_sum; [|exact C0]. unfold memo_key in K0. inversion K0 as [[Hu Hc]].
+        unfold PkgAuth.h_sum. rewrite Hc. reflexivity.
       + destruct (expand_uncached sha1 sha256 b64 (Some kc) h served) as [r1 k1] eqn:EU.
         intro H. inversion H; subst.
         assert (forall x, r = XOk x -> Chain h x) as CH.
         { intros x E; subst. eapply expand_uncached_chain; eauto. }
         split; [exact CH|]. split; [eapply expand_uncached_keeps_cache_ok; eauto|].
-        intros u r2 x A2 E2. simpl in A2. destruct (String.eqb u (memo_key h)) eqn:Eu.
-        * apply String.eqb_eq in Eu; subst u. inversion A2; subst. exists h. split; [reflexivity | apply CH; reflexivity].
+        intros u r2 x A2 E2. simpl in A2. destruct (key_eqb u (memo_key h)) eqn:Eu.
+        * apply key_eqb_eq in Eu; subst u. inversion A2; subst. exists h. split; [reflexivity | apply CH; reflexivity].
         * eapply MI; eauto.
     - destruct (expand_uncached sha1 sha256 b64 None h served) as [r1 k1] eqn:EU.
       intro H. inversion H; subst. split; [|split; [eapply expand_uncached_keeps_cache_ok; eauto | exact MI]].
@@ -346,21 +312,27 @@ Proof.
   exfalso. apply (Hg eq_refl). reflexivity.
 Qed.
 
-(* ---- the joined memo key is ambiguous (finding C05-F2) ------------------------------ *)
+(* ---- the two earlier memo keys (fixed findings C05-F1 / C05-F2), as regression
+   witnesses: two different requests that the earlier key shapes identified, the
+   second of which a fresh expansion refuses, while the pair key keeps them apart *)
 Definition idf (b : list N) : list N := b.
-Definition wit_b64 (s : string) : option (list N) := if String.eqb s "1" then Some [1]%N else None.
+Definition wit_b64 (s : string) : option (list N) :=
+  if String.eqb s "1" then Some [1]%N else if String.eqb s "2" then Some [2]%N else None.
 Definition wit_apk : apkfile :=
   {| a_ctl := {| c_raw := [1]%N; c_desc := ""; c_datahash := [] |}; a_dat := {| d_raw := [1]%N; d_files := [] |} |}.
 Definition wit_h1 : handle := {| h_url := "a@b"; h_chk := "1" |}.
-Definition wit_h2 : handle := {| h_url := "a"; h_chk := "b@1" |}.
+Definition wit_h2 : handle := {| h_url := "a"; h_chk := "b@1" |}.     (* same URL++"@"++checksum as wit_h1 *)
+Definition wit_h3 : handle := {| h_url := "a@b"; h_chk := "2" |}.     (* same URL as wit_h1 *)
 
-Lemma memo_key_ambiguity_refutes_chain :
-  exists r1 k1 m1 x k2 m2,
+Lemma pair_key_separates :
+  (h_url wit_h1 ++ "@" ++ h_chk wit_h1 = h_url wit_h2 ++ "@" ++ h_chk wit_h2)%string /\
+  h_url wit_h1 = h_url wit_h3 /\
+  exists r1 k1 m1,
     expand_package idf idf wit_b64 [] (Some empty_cache) wit_h1 (Some wit_apk) = (r1, k1, m1) /\
-    expand_package idf idf wit_b64 m1 k1 wit_h2 None = (XOk x, k2, m2) /\
-    fst (expand_uncached idf idf wit_b64 k1 wit_h2 (Some wit_apk)) = XErr EVerify /\
-    ~ Chain idf idf wit_b64 wit_h2 x.
+    (exists x, r1 = XOk x) /\
+    fst (fst (expand_package idf idf wit_b64 m1 k1 wit_h2 (Some wit_apk))) = XErr EVerify /\
+    fst (fst (expand_package idf idf wit_b64 m1 k1 wit_h3 (Some wit_apk))) = XErr EVerify.
 Proof.
-  eexists _, _, _, _, _, _. split; [vm_compute; reflexivity|]. split; [vm_compute; reflexivity|].
-  split; [vm_compute; reflexivity|]. vm_compute. intros (A & _). discriminate A.
+  split; [reflexivity|]. split; [reflexivity|]. eexists _, _, _. split; [vm_compute; reflexivity|].
+  split; [eexists; reflexivity|]. split; vm_compute; reflexivity.
 Qed.
